@@ -286,6 +286,9 @@ func Run(run *vk.Run, prop string) {
 			run.Sample(map[string]any{"cfg": cfg, "random_run_log": LogString(o.Log), "returned": o.Ret, "final_manifest": o.HeadNames})
 		}
 	})
+	if prop == "C14" {
+		severalBackends(run)
+	}
 	if prop == "C15" {
 		sweepC15(run)
 		sweepC15CLI(run)
